@@ -269,6 +269,10 @@ def run(analysis: Analysis, tier: str) -> RuleResult:
     from . import c16
 
     c16.send_discipline(analysis, _Lemma)
+    # lemma: str.encode() in the send methods is total because inbound text holds no lone surrogates (C19-R1)
+    from . import c19
+
+    c19.inbound_text_encodable(analysis, _Lemma, "C19-R1")
 
     # INV-OTA-RANGE: what A-OTA-RANGE assumes about firmware type / version is established by the update call
     from . import c10
